@@ -761,4 +761,87 @@ theorem C10_dead_encoder (f : Option Nat) (s : WHist.St) (hd : s.encDead = true)
     WHist.step f s .tx = (s, .ioErr) := by
   simp [WHist.step, hd, ho]
 
+
+/-! ### round 5: transmit calls and the connection's deadlines -/
+
+/-- regenerated: which deadline setter of the connection each function of the package mentions.
+`setWriteDeadline` (the watcher of the transmit calls) only the write deadline, `setDeadline`
+(negotiation) both, `SetCloseDeadline` the read deadline (`newConn` declares the optional
+interface of transports without deadlines). -/
+theorem C10_gen_deadline_setters :
+    Generated.C10.deadlineSetters = some
+      [("SetCloseDeadline", ["SetReadDeadline"]), ("newConn", ["SetReadDeadline", "SetWriteDeadline"]),
+       ("setDeadline", ["SetDeadline"]), ("setWriteDeadline", ["SetWriteDeadline"])] := by decide
+
+/-- regenerated: every deadline setter the transmit functions can reach through calls inside the
+package: the write deadline and nothing else -/
+theorem C10_gen_transmit_deadline_setters :
+    Generated.C10.transmitDeadlineSetters = some
+      [("Encode", ["SetWriteDeadline"]), ("EncodeElement", ["SetWriteDeadline"]), ("send", ["SetWriteDeadline"]),
+       ("lockWriteCloser.EncodeToken", []), ("lockWriteCloser.Flush", []), ("lockWriteCloser.Close", [])] := by decide
+
+open ConnDl in
+/-- … so the watcher of every transmit function is the write-only one of the model -/
+theorem C10_gen_transmit_watcher_write_only :
+    ∀ p ∈ Generated.C10.transmitDeadlineSetters.getD [("none", ["none"])],
+      ∀ n ∈ p.2, setterOf n = some Setter.write := by decide
+
+open ConnDl in
+theorem ConnDl.run_write_rd : ∀ (evs : List Ev) (s : St),
+    (run .write s evs).rd = match lastClose evs with | some t => .at t | none => s.rd := by
+  intro evs
+  induction evs with
+  | nil => intro s; rfl
+  | cons e es ih =>
+    intro s
+    cases e with
+    | closeDeadline t =>
+      simp only [run, step, lastClose]
+      rw [ih]
+      cases lastClose es <;> simp [setDl, Option.orElse]
+    | transmit b =>
+      simp only [run, step, lastClose]
+      rw [ih]
+      cases b <;> simp [watcher, setDl]
+
+open ConnDl in
+/-- **a transmit call never moves the deadline of `Serve`'s read**: whatever transmit calls are
+abandoned (context over while the write is blocked) or complete, in any number and order, and
+whatever close deadlines are installed in between, the read deadline in force is the last one
+`SetCloseDeadline` installed (the initial one if there was none) -/
+theorem C10_transmit_keeps_read_deadline (evs : List Ev) (s : St) :
+    (run .write s evs).rd = match lastClose evs with | some t => .at t | none => s.rd :=
+  ConnDl.run_write_rd evs s
+
+open ConnDl in
+/-- in particular: close deadline `t`, then any number of transmit calls with contexts that end
+or not: `Serve`'s blocked read ends at `t`, not earlier, not never -/
+theorem C10_abandoned_transmit_serve_ends_at_close_deadline (t : Nat) (es : List Bool) (s : St) :
+    readEnds (run .write s (.closeDeadline t :: es.map .transmit)) = some t := by
+  have h : ∀ es : List Bool, lastClose (es.map Ev.transmit) = none := by
+    intro es; induction es with
+    | nil => rfl
+    | cons b bs ih => simpa [lastClose] using ih
+  rw [readEnds, ConnDl.run_write_rd]
+  simp [lastClose, h, Option.orElse]
+
+open ConnDl in
+/-- the setter calls a guarded transmit call adds never touch the read deadline -/
+theorem C10_transmit_calls_write_setter_only (e : Bool) (s : St) :
+    ∃ l, (watcher .write e s).log = s.log ++ l ∧ ∀ c ∈ l, movesRead c.1 = false := by
+  cases e
+  · exact ⟨[], by simp [watcher], by simp⟩
+  · exact ⟨[(.write, .past), (.write, .zero)], by simp [watcher, setDl], by simp [movesRead]⟩
+
+open ConnDl in
+/-- the statement is about the write-only watcher: one that moves the whole deadline
+(`SetDeadline`) makes `Serve`'s read fail at once while the transmit call is given up, and
+afterwards wipes the close deadline so that `Serve` never returns -/
+theorem C10_transmit_whole_deadline_breaks_serve (t : Nat) :
+    readEnds (setDl .both .past (run .both init [.closeDeadline t])) = some 0 ∧
+    readEnds (run .both init [.closeDeadline t, .transmit true]) = none ∧
+    ∃ c ∈ (run .both init [.closeDeadline t, .transmit true]).log, c.1 = .both ∧ movesRead c.1 = true := by
+  refine ⟨rfl, rfl, (.both, .past), ?_, rfl, rfl⟩
+  simp [run, step, watcher, setDl, init]
+
 end XmppModel.Props.C10
